@@ -105,6 +105,13 @@ LeadOf(cfg, d) ==
     /\ d.lead.os = 1 /\ d.lead.sigtype = 5
     /\ d.lead.name = (IF Len(cfg.name) <= 65 THEN cfg.name ELSE SubSeq(cfg.name, 1, 65))
 
+\* the signature header of a built package: the header SHA-256, and for build_and_sign the OpenPGP signature list plus
+\* the legacy tag of the key's algorithm family (RSA 268, everything else under the "DSA" tag 267)
+SigTags(cfg, d) ==
+    SetOf(d.sig_tags) = {273} \cup (IF IsSome(cfg.signer)
+                                    THEN {278, IF cfg.signer.some \in {"rsa4096", "rsa3072p", "asset"} THEN 268 ELSE 267}
+                                    ELSE {})
+
 Notes(cfg, fs, d) ==
     (IF SetOf(d.tags) = ExpectedTags(cfg, fs) THEN {} ELSE {"tag set"})
     \cup (IF Constants(d) THEN {} ELSE {"constants"}) \cup (IF Defaults(cfg, d) THEN {} ELSE {"defaults"})
@@ -112,4 +119,5 @@ Notes(cfg, fs, d) ==
     \cup (IF Requires(cfg, fs, d) THEN {} ELSE {"rpmlib requires"}) \cup (IF Accounts(fs, d) THEN {} ELSE {"user/group recommends"})
     \cup (IF PerFile(fs, d) THEN {} ELSE {"per-file constants"}) \cup (IF Dirs(fs, d) THEN {} ELSE {"directory list"})
     \cup (IF Codec(cfg, d) THEN {} ELSE {"payload compressor / flags"}) \cup (IF LeadOf(cfg, d) THEN {} ELSE {"lead"})
+    \cup (IF SigTags(cfg, d) THEN {} ELSE {"signature header tags"})
 =============================================================================
